@@ -152,7 +152,14 @@ def shard(binpath, seed, sh, plans, tz=None):
         cases.append(scen.verify_case(wires[node["req"]], [[W.kid("ed0"), W.pub("ed0")]], files, meta=meta, reps=1, step_name=sn))
     # the verifying process may run in any local time zone: the verdict is about instants, not wall-clock readings
     import os
-    obs = common.run_batch(binpath, cases, env=dict(os.environ, TZ=tz) if tz else None)
+    env = None
+    if tz and tz.startswith("env:"):
+        # other things in the verifying process's environment that tools use to pin "the current time"
+        k, v = tz[4:].split("=", 1)
+        env = dict(os.environ, **{k: v})
+    elif tz:
+        env = dict(os.environ, TZ=tz)
+    obs = common.run_batch(binpath, cases, env=env)
     for c, o in zip(cases, obs):
         m = c["meta"]
         if tz:
@@ -162,7 +169,10 @@ def shard(binpath, seed, sh, plans, tz=None):
             continue
         cls = [f"{m['level']}:{x}" for x in out] + [f"notation:{m['notation_class']}:{x}" for x in out]
         if tz:
-            cls += [f"process_time_zone:{'west' if tz in WEST else 'east'}_of_utc:{x}" for x in out]
+            if tz.startswith("env:"):
+                cls += [f"process_environment:{tz[4:].split('=')[0]}:{x}" for x in out]
+            else:
+                cls += [f"process_time_zone:{'west' if tz in WEST else 'east'}_of_utc:{x}" for x in out]
         if m["frac"]:
             cls += [f"fractional:{x}" for x in out]
         cls += [f"summary_name_{m['summary_name']}:{x}" for x in out]
@@ -265,7 +275,8 @@ def main(ctx):
     # the same sweep (coarser) with the verifying process in time zones west and east of UTC
     tzplans = [(lv, d, off, "", "T_Z") for lv in ("top", "sub") for d in (-13 * 3600, -10 * 3600, -4 * 3600, -3600, -1800, -61, -10, 30, 60, 1800, 3600, 4 * 3600, 10 * 3600, 15 * 3600)
                for off in (None, "+05:30", "-08:00")]
-    for p in common.pmap(shard, [(ctx.bin, ctx.seed, 100 + i, tzplans, tz) for i, tz in enumerate(WEST + EAST)]):
+    envs = ["env:SOURCE_DATE_EPOCH=0", "env:SOURCE_DATE_EPOCH=1577836800", "env:FAKETIME=2020-01-01 00:00:00", "env:SOURCE_DATE_EPOCH=4102444800"]
+    for p in common.pmap(shard, [(ctx.bin, ctx.seed, 100 + i, tzplans, tz) for i, tz in enumerate(WEST + EAST + envs)]):
         res.merge(p)
     for p in common.pmap(history_shard, [(ctx.bin, ctx.seed, s) for s in range(4 if not ctx.thorough else n)]):
         res.merge(p)
@@ -275,7 +286,7 @@ def main(ctx):
     req = ["top:expired", "top:unexpired_ok", "sub:expired", "sub:unexpired_ok", "notation:offset:expired",
            "notation:offset:unexpired_ok", "notation:zero-offset:expired", "notation:Z:expired", "notation:Z:unexpired_ok",
            "fractional:expired", "fractional:unexpired_ok", "history:after:bad_signature:expired", "history:after:success:expired",
-           "history:after:expired_long_ago:expired", "sub_layout_next_to_other_evidence:expired", "sub_layout_next_to_other_evidence:unexpired_ok", "summary_name_given:expired", "summary_name_given:unexpired_ok", "process_time_zone:west_of_utc:expired", "process_time_zone:west_of_utc:unexpired_ok",
+           "history:after:expired_long_ago:expired", "sub_layout_next_to_other_evidence:expired", "sub_layout_next_to_other_evidence:unexpired_ok", "summary_name_given:expired", "summary_name_given:unexpired_ok", "process_environment:SOURCE_DATE_EPOCH:expired", "process_environment:SOURCE_DATE_EPOCH:unexpired_ok", "process_time_zone:west_of_utc:expired", "process_time_zone:west_of_utc:unexpired_ok",
            "process_time_zone:east_of_utc:expired", "process_time_zone:east_of_utc:unexpired_ok"]
     return common.finish(
         PROP, ctx.tier, ctx.seed, res, t0=ctx.t0,
